@@ -134,13 +134,27 @@ def arg_findings(ctx, rule, message, where):
     return r
 
 
+def own_rng_rule(ctx):
+    """OWN-RNG (= BM-RNG of C12, shared): in evaluation mode repeating a call gives bit-identical results, so no
+    fresh random draw may reach a result of forward / inverse / log_prob (a functional dropout whose `training`
+    is left at its default True draws a new mask on every call -- and advances the global generator)."""
+    from .c12 import rng_rule
+
+    r = rng_rule(ctx)
+    r.rule = "OWN-RNG"
+    for f in r.findings:
+        f.rule = "OWN-RNG"
+        f.message += "; repeating the call gives different results and every evaluation call consumes the global random generator"
+    return r
+
+
 def c20_pure(ctx):
     return _results(ctx, ("util",), ["UT-PURE"], min_sites=2, min_entries=16)
 
 
 register(
     "C13",
-    [c13],
+    [c13, own_rng_rule],
     "Ownership/effect abstract interpretation (nfstatic/own.py over nfstatic/interp.py) of every evaluation entry point "
     "(forward/inverse of every Transform subclass per concrete receiver class, the Linear accessors, log_prob/sample/"
     "sample_and_log_prob/mean/transform_to_noise of every Distribution subclass, forward/log_prob/sample of the remaining "
